@@ -200,8 +200,10 @@ pub fn derive_cfg(job: &Job) -> SimCfg {
         gen_cfg.adversarial_paths = false;
     }
     if job.prop == "C07" {
-        // C07 is about words, not about moving dictionaries: paths are chosen once per session
-        gen_cfg.use_paths = false;
+        // paths are chosen at session start; they are changed during the session only under the
+        // sequential policy, where "the dictionary a command was aimed at" is unambiguous (in a
+        // concurrent schedule a configuration answered late may legitimately redirect a command)
+        gen_cfg.use_paths = sequential && r.chance(1, 2);
         gen_cfg.paths_at_start = true;
     }
     match focus {
